@@ -1,8 +1,8 @@
 (* C02 - the consumer delivers every message once, in offset order, never concurrently.
    Theorem statements only; proofs live in Proofs/ConsumerC02*.v.  Model: Model/Consumer.v (afkak/consumer.py:290-1131),
    specification vocabulary (monitors, honest broker over a log): Model/ConsumerLog.v. *)
-From AV Require Import Base.Util Model.Consumer Model.ConsumerLog Proofs.ConsumerC02Extract Proofs.ConsumerC02ReqRun
-  Proofs.ConsumerC02PwRun.
+From AV Require Import Base.Util Model.Consumer Model.ConsumerLog Model.ConsumerLogFifo Proofs.ConsumerC02Extract
+  Proofs.ConsumerC02ReqRun Proofs.ConsumerC02PwRun Proofs.ConsumerC02Fifo Proofs.ConsumerC02FifoRun.
 
 (* At most one offset/fetch request is outstanding and at most one refetch timer is armed, at every moment of every run:
    the monitor REQ (Model/ConsumerLog.v: rejects a request sent while one is outstanding, a refetch timer armed while
@@ -28,6 +28,25 @@ Theorem C02_no_overlap : forall fuel c maxatt buf evs,
   = Some (pw_abs None (fst (run_events fuel (init c maxatt buf) evs))).
 Proof. exact pw_monitor_accepts. Qed.
 Print Assumptions C02_no_overlap.
+
+(* What reaches the processor is exactly what was extracted from the accepted fetch replies, in order, once: the monitor
+   FIFO (Model/ConsumerLogFifo.v) keeps the list of messages extracted (by the loop of _handle_fetch_response at the
+   fetch offset current when the reply is accepted) and not yet delivered; it rejects a processor invocation that is not a
+   non-empty prefix of that list (a gap, a repeat, a reordering, a message that was never fetched).  It accepts the run
+   of the model for every configuration (auto_commit_every_n >= 0) and every event list - replies parked behind a slow
+   processor, blocks cut by auto_commit_every_n, re-entrant stop()/commit()/shutdown(), failures, restarts - and
+   NOTHING IS LOST WHILE THE CONSUMER IS ALIVE: in every state that is not stopping / stopped / failed / shutting
+   down, what FIFO still expects is precisely what the model holds (rest of the block in progress, then the parked
+   reply); in particular with no processor result pending and no reply parked everything extracted has been delivered.
+   Together with C02_extract_log_segment (each extraction = the log segment [fetch offset, new fetch offset)) this is
+   the whole-run form of "no omissions, no repeats, in order". *)
+Theorem C02_delivered_in_order : forall fuel c maxatt buf evs,
+  0 <= c_acn c -> run_fuel_ok fuel c maxatt buf evs = true ->
+  exists g, mon_run_s fifo_ev fifo_out [] (run_steps fuel (init c maxatt buf) evs) = Some g
+            /\ let s := fst (run_events fuel (init c maxatt buf) evs) in
+               dead2 s = false -> g = queued s ++ pext s.
+Proof. exact fifo_monitor_accepts. Qed.
+Print Assumptions C02_delivered_in_order.
 
 (* The extraction loop against an honest broker (a contiguous run of the log starting at or before the first entry
    >= the fetch offset, cut anywhere): for EVERY log with strictly increasing offsets (gaps allowed) and every start
@@ -84,6 +103,15 @@ Example overlap_ex :
 Proof. vm_compute. split; reflexivity. Qed.
 Example pw_rejects_overlap :
   mon_run pw_ev pw_out pw0 [(EFetchOk [0; 1] false, [OCallProc [0]; OCallProc [1]])] = None.
+Proof. reflexivity. Qed.
+(* FIFO on a run with a parked reply: after the first block [0;1] is handed on, [2] and the parked [3] are still expected *)
+Example fifo_ex :
+  let c := mkCfg true 2 false 0 None (-1) in
+  let evs := [EStart 0; EFetchOk [0; 1; 2] false; EFireRetry; EFetchOk [3] false] in
+  run_fuel_ok 30 c 0 4096 evs = true /\
+  mon_run_s fifo_ev fifo_out [] (run_steps 30 (init c 0 4096) evs) = Some [2; 3].
+Proof. vm_compute. split; reflexivity. Qed.
+Example fifo_rejects_gap : fifo_out [5; 6; 7] (OCallProc [6]) = None.
 Proof. reflexivity. Qed.
 (* the monitor is not trivially accepting: a second fetch request while one is outstanding is rejected *)
 Example req_rejects : mon_run req_ev req_out q0 [(EStart 0, [OFetch 0 4096; OFetch 0 4096])] = None.
